@@ -85,6 +85,9 @@ type FileInfo struct {
 
 	SingleLine bool
 
+	// DelimiterPositions were not given but inferred from the spaces of the file (FIXED with SPACES)
+	delimiterPositionsInferred bool
+
 	Handler *file.Handler
 
 	ForUpdate bool
@@ -215,6 +218,7 @@ func (f *FileInfo) SetDelimiterPositions(s string) error {
 
 	f.Format = format
 	f.DelimiterPositions = delimiterPositions
+	f.delimiterPositionsInferred = false
 	f.SingleLine = singleLine
 
 	return nil
@@ -362,6 +366,12 @@ func (f *FileInfo) ExportOptions(tx *Transaction) option.ExportOptions {
 	ops.Format = f.Format
 	ops.Delimiter = f.Delimiter
 	ops.DelimiterPositions = f.DelimiterPositions
+	if f.delimiterPositionsInferred {
+		// Positions inferred from the spaces of a file mark where its values end, not how wide the fields are
+		// written: a file rewritten with them has no space left between its columns and can no longer be read
+		// the way it was. It is written with automatic widths instead, as a new file would be.
+		ops.DelimiterPositions = nil
+	}
 	ops.SingleLine = f.SingleLine
 	ops.Encoding = f.Encoding
 	ops.LineBreak = f.LineBreak
